@@ -101,6 +101,27 @@ func GenGeom(r *gen.R, coord func(*gen.R) float64) (geom.Geom, string, bool) {
 			}
 		}
 	}
+	// rings (and lines) "closed" by a last vertex that equals the first one numerically but not
+	// bit for bit: zero ordinates with opposite signs (a closing vertex that was computed, not copied)
+	closeWithOtherZero := func(p []geom.Point) { gen.CloseWithOtherZero(r, p, 0.12) }
+	switch t := g.(type) {
+	case geom.LineString:
+		closeWithOtherZero(t)
+	case geom.MultiLineString:
+		for _, m := range t {
+			closeWithOtherZero(m)
+		}
+	case geom.Polygon:
+		for _, m := range t {
+			closeWithOtherZero(m)
+		}
+	case geom.MultiPolygon:
+		for _, pg := range t {
+			for _, m := range pg {
+				closeWithOtherZero(m)
+			}
+		}
+	}
 	return g, names[k], emptyLater
 }
 
